@@ -407,9 +407,12 @@ def t_wire_transform(eng):
     nm = ['rotate', 'scale', 'translate'][which]
     eng.oblige(n + nm + '/both-end-points-transformed', b_and(veq(eng, w.fields['p1'], e1), veq(eng, w.fields['p2'], e2)))
     eng.oblige(n + nm + '/radius-' + ('scaled-too' if which == 1 else 'unchanged'), num_eq(w.fields['_r'], er))
+    # (the end-point array is what compute_connections matches wire ends on: a transformation that leaves it stale joins
+    # or separates wires by their OLD positions)
+    have = isinstance(w.fields.get('diff'), NDArr) and isinstance(w.fields.get('endpoints'), NDArr)
     eng.oblige(n + nm + '/derived-geometry-recomputed',
-               b_and(veq(eng, w.fields['diff'], NDArr([r_sub(b, a) for a, b in zip(e1.data, e2.data)])),
-                     veq(eng, w.fields['endpoints'], NDArr([e1.data, e2.data]))))
+               have and bterm(b_and(veq(eng, w.fields['diff'], NDArr([r_sub(b, a) for a, b in zip(e1.data, e2.data)])),
+                                    veq(eng, w.fields['endpoints'], NDArr([e1.data, e2.data])))))
     eng.oblige(n + nm + '/unscaled-description-kept-for-the-option-writer',
                veq(eng, w.fields['endp_unscaled'], NDArr([[0, 0, 0], [0, 0, 0]])))
 
